@@ -5,13 +5,24 @@ from .rt import ite, land, lor, lnot, bits, bit, b2i, M32
 from . import state as ST
 
 
+def _ite_any(c, a, b):
+    """ite that also merges abstract memory tokens (z3 terms of an uninterpreted sort)"""
+    if hasattr(a, 'sort') and hasattr(b, 'sort') and not isinstance(a, (int, bool)):
+        import z3
+        from pyvc import sym
+        return z3.If(sym.zb(c), a, b)
+    return ite(c, a, b)
+
+
 class Cpu:
     def __init__(self, st, iset, instr, oplen, mem=None):
         self.st = st                      # owned dict of leaves
         self.iset = iset                  # 'arm' | 'thumb' (instruction set state at entry; J == 0)
         self.instr = instr
         self.oplen = oplen
-        self.mem = mem                    # abstract memory adapter (spec/absmem protocol) or None
+        self.mem = None
+        self.native_mem = mem             # native replays: scripted memory (reads by address/size, writes logged)
+        self.unknown = False              # some architecturally UNKNOWN value was produced (result not compared)
         self.unpred = False
         self.undef = False
         self.branched = False
@@ -19,8 +30,8 @@ class Cpu:
 
     # ---------------------------------------------------------------- control
     def copy(self):
-        c = Cpu(dict(self.st), self.iset, self.instr, self.oplen, self.mem.copy() if self.mem is not None else None)
-        c.unpred, c.undef, c.branched, c.outcome = self.unpred, self.undef, self.branched, self.outcome
+        c = Cpu(dict(self.st), self.iset, self.instr, self.oplen, self.native_mem)
+        c.unpred, c.undef, c.branched, c.outcome, c.unknown = self.unpred, self.undef, self.branched, self.outcome, self.unknown
         return c
 
     def cases(self, cases):
@@ -38,22 +49,23 @@ class Cpu:
             v = last.st.get(key)
             for c, k in reversed(outs[:-1]):
                 v2 = k.st.get(key)
-                v = v2 if v2 is v else ite(c, v2, v)
+                v = v2 if v2 is v else _ite_any(c, v2, v)
             self.st[key] = v
-        for attr in ('unpred', 'undef', 'branched'):
+        for attr in ('unpred', 'undef', 'branched', 'unknown'):
             v = getattr(last, attr)
             for c, k in reversed(outs[:-1]):
                 v2 = getattr(k, attr)
                 v = v2 if v2 is v else ite(c, v2, v)
             setattr(self, attr, v)
-        if self.mem is not None:
-            self.mem.merge([(c, k.mem) for c, k in outs])
 
     def when(self, cond, fn):
         self.cases([(cond, fn), (True, lambda k: None)])
 
     def UNPREDICTABLE(self, cond=True):
         self.unpred = lor(self.unpred, cond)
+
+    def UNKNOWN(self, cond=True):
+        self.unknown = lor(self.unknown, cond)
 
     def UNDEFINED(self, cond=True):
         self.undef = lor(self.undef, cond)
